@@ -261,6 +261,6 @@ fn main() {
     rep.stats.class_n("static Send+Sync assertions compiled", n_static as u64);
     rep.stats.exhaustive.push("the listed type set (compile-time)".into());
     let cfg = GenCfg { plain_sourcefile_headers: false, max_blocks: 4, max_items: 8, long: 0, overloads: true, ..GenCfg::default() };
-    rep.run_stage("stress", move || map_case(&cfg), ctx.cases(500, 8000), check_case);
+    rep.run_stage("stress", move || map_case(&cfg), ctx.cases(500, 24_000), check_case);
     std::process::exit(rep.finish());
 }
